@@ -20,6 +20,12 @@ PRELUDE = ('struct P(a: int, b: str)\nunion V(i: int, s: str)\nfn uf1(x: int)->i
            'fn uf3(x: int, y: int ?= 5)->int{ let d = display("BODY-RAN"); x + 1 }\n'
            'fn ids(s: Sequence<int>)->Sequence<int>{ s }\nfn inc(x: int)->int{ x + 1 }\n'
            'fn down(n: int)->int{ if(n == 0, 0, 1 + down(n - 1)) }\nfn loop(n: int, a: int)->int{ if(n == 0, a, loop(n - 1, a + 1)) }\n'
+           'fn tw2(n: int, a: int)->int{ if(n == 0, 0, tw2(n - 1, if(n == 1, error("E1"), a + n))) }\n'
+           'fn tw3(n: int, a: int, b: int)->int{ if(n == 0, 0, tw3(n - 1, if(n == 1, error("E1"), a + n), if(n == 1, error("E2"), b))) }\n'
+           'fn tand(n: int, a: bool)->bool{ n == 0 || tand(n - 1, if(n == 1, error("E1"), a)) }\n'
+           'fn tdef(n: int, a: int ?= 0)->int{ if(n == 0, 0, tdef(n - 1, if(n == 1, error("E1"), a + n))) }\n'
+           'fn tlam(m: int)->int{ fn f(n: int, a: int)->int{ if(n == 0, m - m, f(n - 1, if(n == 1, error("E1"), a + n))) } f(m, 0) }\n'
+           'fn twf(a: int, n: int)->int{ if(n == 0, 0, twf(if(n == 1, error("E0"), a + n), n - 1)) }\n'
            'fn ge(k: int)->(int)->(bool){ (x: int)->{ x >= k } }\nfn fact(n: int)->int{ if(n <= 1, 1, n * fact(n - 1)) }\n')
 
 
@@ -64,6 +70,36 @@ def inject_cases(tier, sigs):
                     if sig['name'] == 'set_default' and sub == (2,):
                         continue   # the shipped suite pins set_default as skipping its value when the key is present (script 351)
                     add('native', sig['name'], args, sub)
+    # an error argument together with an argument that makes the callee fail on its own (out-of-range index, zero divisor, empty
+    # receiver, ...): the received error is still the result
+    alt_pools = Pools(ints=[0, 7, -4, 1 << 64], strs=['', 'ab'], floats=[0.0, -1.5], size=4)
+    for sig in sigs:
+        if sig['kind'] != 'static' or sig['name'].startswith('_') or sig['name'] in SPECIAL or sig['name'] == 'set_default':
+            continue
+        for bind, ptypes, opts, ret in instantiate(sig, generic_choices=(INT,)):
+            if any(stdlib.contains_type(p, t) for p in ptypes for t in SKIP_PARAM_TYPES):
+                continue
+            if ptypes and ptypes[0][0] == 'app' and ptypes[0][1] == 'Optional' and len(ptypes) >= 2:
+                continue
+            for ar in arities(opts):
+                if ar < 2:
+                    continue
+                pts = ptypes[:ar]
+                base = [pools.first(p) for p in pts]
+                if any(b is None for b in base):
+                    continue
+                for i in range(ar):
+                    for j in range(ar):
+                        if j == i or pts[j][0] == 'fn':
+                            continue
+                        alts = alt_pools.get(pts[j]) if tier != 'quick' else alt_pools.get(pts[j])[:3]
+                        for alt in alts:
+                            if alt == base[j]:
+                                continue
+                            args = list(base)
+                            args[i] = E(i)
+                            args[j] = alt
+                            add('native-with-failing-arg', sig['name'], args, (i,))
     # user-defined callees: the body must not run
     for sub in ((0,),):
         add('user-fn', 'uf1', [E(0)], (0,), output='')
@@ -83,6 +119,17 @@ def inject_cases(tier, sigs):
     out.append({'sig': 'C06|partial|call', 'src': 'let f = partial(uf2, 1); f(%s)' % E(1), 'exp': Err('E1'), 'out': ''})
     out.append({'sig': 'C06|partial|bound-error', 'src': 'let f = partial(uf2, %s); f("s")' % E(0), 'exp': Err('E0'), 'out': ''})
     out.append({'sig': 'C06|map-callback|arg', 'src': '[1, 2].map(uf1).to_array().len() + uf1(%s)' % E(0), 'exp': Err('E0'), 'out': 'BODY-RAN\nBODY-RAN\n'})
+    # self tail calls re-enter the body without a call: an error argument of the tail call is still the result, also when the next
+    # activation never reads that parameter
+    tail_prelude_fns = [('tw2', 2), ('tw3', 3)]
+    for n in (0, 1, 2, 3):
+        for pos in (1,):
+            out.append({'sig': 'C06|tail-call|tw2|n=%d' % n, 'src': 'tw2(%d, 0)' % n, 'exp': Err('E1') if n >= 1 else 0, 'out': None})
+        out.append({'sig': 'C06|tail-call|tw3-a|n=%d' % n, 'src': 'tw3(%d, 0, 0)' % n, 'exp': Err('E1') if n >= 1 else 0, 'out': None})
+        out.append({'sig': 'C06|tail-call|tand|n=%d' % n, 'src': 'tand(%d, true)' % n, 'exp': Err('E1') if n >= 1 else True, 'out': None})
+        out.append({'sig': 'C06|tail-call|tdef|n=%d' % n, 'src': 'tdef(%d)' % n, 'exp': Err('E1') if n >= 1 else 0, 'out': None})
+        out.append({'sig': 'C06|tail-call|tlam|n=%d' % n, 'src': 'tlam(%d)' % n, 'exp': Err('E1') if n >= 1 else 0, 'out': None})
+        out.append({'sig': 'C06|tail-call|tw-first|n=%d' % n, 'src': 'twf(0, %d)' % n, 'exp': Err('E0') if n >= 1 else 0, 'out': None})
     # constructions and insertions: collections never contain errors
     ctor = [
         ('array', '[1, %s, 3]', 1), ('array-first', '[%s, 2]', 0), ('array-two', '[%s, %s]', (0, 1)),
